@@ -58,6 +58,10 @@ def check(ctx):
         ctx.guard("C15.b QUANTILE-TUNE", name, lambda: check_tuning(ctx, pkg, name))
     ctx.guard("C15.b QUANTILE-TUNE", "PELT", lambda: check_pelt_tuning(ctx))
     ctx.guard("C15.d MONOTONE-PELT", "exactness", lambda: shared_pelt_exactness(ctx))
+    # the fitted penalties / thresholds are those of the TRAINING data: written by fit only, never by predict
+    from .c10 import shared_no_stale
+
+    shared_no_stale(ctx, "C15.a NF-FORMULA", [("skchange.change_detectors", "PELT"), ("skchange.change_detectors", "SeededBinarySegmentation"), ("skchange.change_detectors", "MovingWindow"), ("skchange.anomaly_detectors", "CircularBinarySegmentation"), ("skchange.anomaly_detectors", "CAPA"), ("skchange.anomaly_detectors", "MVCAPA")])
     ctx.expect_min("C15.a NF-FORMULA", sum(1 for o in ctx.obs if o.rule == "C15.a NF-FORMULA"), 10)
     ctx.expect_min("C15.c SCALE-LINEAR", sum(1 for o in ctx.obs if o.rule == "C15.c SCALE-LINEAR"), 9)
 
